@@ -36,7 +36,7 @@ def x_mul(M, o):
     if o.get('setflags'):
         M.set_nz(r & M32)
         if M.arch() == 4:
-            raise Unpred('C flag UNKNOWN after MULS on ARMv4')      # modelled as not compared
+            M.unknown_bits['cpsr'] = M.unknown_bits.get('cpsr', 0) | (1 << 29)      # C is UNKNOWN after MULS/MLAS on ARMv4 (V is unchanged on every version)
 
 
 def _mul_a1(M, f):
@@ -108,7 +108,7 @@ def x_long(M, o):
         M.setbit('cpsr', 31, r >> 63)
         M.setbit('cpsr', 30, 1 if r == 0 else 0)
         if M.arch() == 4:
-            raise Unpred('C and V UNKNOWN after long multiply with S on ARMv4')
+            M.unknown_bits['cpsr'] = M.unknown_bits.get('cpsr', 0) | (3 << 28)      # C and V are UNKNOWN after a flag-setting long multiply on ARMv4
 
 
 def long_dec(kind, thumb):
